@@ -28,8 +28,9 @@ def context(tier, seed):
 
 
 def units(ctx):
+    lim = 100 if ctx["tier"] == "quick" else 127
     for fam in ("seq", "key", "bar"):
-        for iv in range(-100, 101):
+        for iv in range(-lim, lim + 1):
             yield (fam, iv)
     if ctx["tier"] != "quick":
         for iv in range(-100, 101):
